@@ -271,6 +271,13 @@ def materialise(case, td):
     return main, extra, env
 
 
+def package_path(case, td, nm):
+    load = case['load']
+    base = os.path.join(td, 'libs') if load in ('abs_cli', 'abs_env', 'rel_dotdot') else os.path.join(td, 'proj')
+    rel = nm.decode('latin-1') + '.lua'
+    return os.path.join(base, 'lib2', rel) if load == 'rel_cli' else os.path.join(base, rel)
+
+
 def reachable(case):
     """Required strings reachable from main -> target package name (in discovery order)."""
     load = case['load']
@@ -317,6 +324,25 @@ def check_case(seed, case_dict, avoid=()):
         os.environ.pop('PICO8_LUA_PATH', None)
         os.environ.update(env)
         try:
+            reach0, order0 = reachable(case)
+            if order0 and bytes(seed)[-4] % 3 == 0:
+                # the same build attempted first while one required file is missing (it must be rejected), then
+                # the file appears and the build is run again in the same process
+                victim = case['alias'].get(reach0[order0[-1]], reach0[order0[-1]])
+                vpath = package_path(case, td, victim)
+                os.rename(vpath, vpath + '.away')
+                try:
+                    rc0 = tool.main(['build', outp, '--lua', main] + extra)
+                    err0 = None
+                except Exception as e:
+                    rc0, err0 = None, e
+                os.rename(vpath + '.away', vpath)
+                if err0 is None and rc0 == 0:
+                    raise Violation('build succeeded although the file of required package %s does not exist'
+                                    % show(victim), case_dict, 'missing-accepted')
+                if os.path.exists(outp):
+                    raise Violation('rejected build (missing package file) wrote the output cart', case_dict, 'missing-wrote')
+                case['after_failed_build'] = True
             try:
                 rc = tool.main(['build', outp, '--lua', main] + extra)
                 err = None
@@ -435,6 +461,8 @@ def part_graphs(ctx):
             labs.append('game_loop_not_last')
         if any(case['ugl'][reach[k]] for k in order):
             labs.append('use_game_loop')
+        if case.get('after_failed_build'):
+            labs.append('after_failed_build_in_same_process')
         for al, real in case['alias'].items():
             labs.append('one_file_two_names')
             if case['ugl'][al] != case['ugl'][real]:
@@ -527,7 +555,7 @@ def vacuity(total, tier):
     for lab in ('shared_package', 'nested_dir', 'package_requires_package', 'game_loop_stripped', 'game_loop_not_last',
                 'use_game_loop', 'site_stmt', 'site_local', 'site_in_function', 'load_default', 'load_abs_cli',
                 'load_abs_env', 'load_rel_dotdot', 'no_final_newline', 'error_missing_file', 'error_bad_option_value',
-                'one_file_two_names_different_option'):
+                'one_file_two_names_different_option', 'after_failed_build_in_same_process'):
         if total.classes.get(lab, 0) < 2:
             msgs.append('class %s seen %d times' % (lab, total.classes.get(lab, 0)))
     return msgs
